@@ -229,6 +229,9 @@ func propC13(c *Ctx, r *Report) {
 	c.runWalkAll(r, "handlewalk", "passes", inPkgs("ir", "dxil/internal/passes"), reachFilter(reach), true, true, nil)
 	c.runRebuild(r, "rebuild.complete", "passes.rebuilds", inPkgs("ir", "dxil/internal/passes", "msl/internal/codegen"), nil)
 	r.Clauses = append(r.Clauses, "per-arm state (E16): inside a loop over the arms of a branching statement a pass never assigns a loop-invariant map itself to its map-typed state field (only a copy, nil, make or a literal), so arms do not share one map")
+	r.Clauses = append(r.Clauses, shallowWalkerClause)
+	c.runShallowWalker(r, "walker.shallow", inPkgs("ir", "dxil"), shallowWalkerExceptions)
+	r.floor("walker.shallow", 10)
 	c.runLoopStateAlias(r, "alias.loopstate", inPkgs("ir", "dxil/internal/passes"))
 	r.floor("alias.loopstate.copysites", 1)
 	r.Clauses = append(r.Clauses, sharedCellClause, argsRoleClause)
@@ -259,4 +262,11 @@ const zeroSentinelClause = "zero is a handle (E53): where a function whose only 
 var zeroSentinelExceptions = map[string]string{
 	"msl/internal/codegen.Writer.tryFoldConstantCast:findOrRegisterScalarType#1": "the handle travels with a folded Uint scalar to writeScalarValue, which consults the type only for the width of a Float",
 	"msl/internal/codegen.Writer.tryFoldConstantCast:findOrRegisterScalarType#2": "the handle travels with a folded Sint scalar to writeScalarValue, which consults the type only for the width of a Float",
+}
+
+const shallowWalkerClause = "nested statements (E58): a loop over the statements of a block that type-switches on the statement kind has arms for the four kinds that carry blocks of their own (If, Switch, Loop, Block) or a default - otherwise it sees the top level only"
+
+var shallowWalkerExceptions = map[string]string{
+	"dxil/internal/passes/mem2reg.countLocalUses:range#1": "shallow on purpose: it counts the stores and loads that sit directly in this block so that a variable is promoted only when all of its uses are colocated in one block (the doc comment says so; rewriteBlock handles the same block only)",
+	"msl/internal/codegen.Writer.countStmtExprRefs:range#1": "reference-count / bake heuristic only (see the handlewalk exception for the same function): an under-counted reference leaves a pure expression inline",
 }
